@@ -2394,6 +2394,13 @@ get_type(CPPType *type, bool global) {
       if (struct_type != nullptr) {
         itype._flags |= InterrogateType::F_nested;
         itype._outer_class = get_type(struct_type, false);
+
+        if ((itype._flags & InterrogateType::F_fully_defined) != 0) {
+          // Defining the outer class has already defined this nested type
+          // along the way.  Don't define it a second time, which would
+          // record all of its members twice.
+          return index;
+        }
       }
     }
   }
